@@ -18,6 +18,7 @@ EXPLANATION = (
     "index 1 transformed along the shift axis and enters as exp(+1j * angle * s) (positive s delays); wave_shift_corrmax "
     "re-aligns with the negated reported shift. Integer shift == roll, additivity, sub-sample accuracy and the estimator's "
     "accuracy are numerical and NOT decided."
+    ' (D6) when a shift is applied in two parts - whole samples by np.roll and the remainder by the phase ramp - the rounding of the whole part (trunc / floor / round) and the remainder expression (s % 1 = s - floor(s); fmod; s - whole) agree, so that the parts add up for negative non-integer shifts.'
 )
 ASSUMPTIONS = [
     "scipy.fft.rfft / irfft return fresh arrays; x *= y mutates x in place; np.put writes in place (model table)",
@@ -560,8 +561,22 @@ def d5_parabolic_edges(ctx):
         ctx.check(off == 0, fi, cmp_, cmp_, "the edge test is taken on the arg-max index itself",
                   f"`{src(cmp_)}` tests the {'clipped ' if clipped else ''}index arg-max{off:+d}, not the arg-max: a maximum on the second / penultimate sample is treated as an edge, "
                   "the parabolic interpolation is skipped there and the delay estimate snaps to an integer (error up to half a sample)", key="edge:" + norm(cmp_.comparators[0])[:30])
-    rhs = sorted(src(c.comparators[0]).replace(" ", "") for _, c in sides)
-    ctx.check(rhs == ["0", "ns-1"], fi, m, m, "edges are sample 0 and sample ns - 1", f"edge positions are {rhs}, expected 0 and ns - 1", key="edge-positions")
+    # positions as normal forms over the length of the last axis (held in a local or written as x.shape[-1])
+    class EL(Evaluator):
+        def ev(self, e):
+            if isinstance(e, ast.Subscript) and src(e).replace(" ", "") in (f"{fi.params[0]}.shape[-1]", f"{fi.params[0]}.shape[{fi.params[0]}.ndim-1]"):
+                return Poly.sym("NS")
+            if isinstance(e, ast.Name):
+                v = expand_name(du, e, st)
+                if v is not e:
+                    return self.ev(v)
+            return super().ev(e)
+    try:
+        pos = sorted((EL().ev(c.comparators[0]) for _, c in sides), key=lambda p_: p_.canon())
+    except Undecided as ex:
+        raise AnalysisError(f"parabolic_max: edge positions not evaluable: {ex}")
+    want = sorted([Poly.const(0), Poly.sym("NS") - Poly.const(1)], key=lambda p_: p_.canon())
+    ctx.check(pos == want, fi, m, m, "edges are sample 0 and sample ns - 1", f"edge positions are {[str(p_) for p_ in pos]}, expected 0 and ns - 1", key="edge-positions")
 
 
 def run(ctx):
